@@ -556,6 +556,14 @@ func (m *vMonitor) detach(info *vVMInfo, gen int, inner test.SSHExecFunc, env ma
 	dec := m.inflightDec[vmid+"/"+uuid]
 	anyDecision := m.decisions[uuid] != nil
 	bootOK, listOK := info.bootOK[gen], info.listOK[gen]
+	// processes of this container the dispatcher could not know about when it
+	// issued this command (the "inherited" set shrinks as VMs answer --list;
+	// an answer that arrives while this command is in flight must not turn an
+	// excusable overlap into a violation - lead, after a thorough-tier false alarm)
+	inhAtArrival := map[vProcRef]bool{}
+	for ref := range m.inherited[uuid] {
+		inhAtArrival[ref] = true
+	}
 	m.mu.Unlock()
 	m.qmu.Unlock()
 
@@ -635,7 +643,7 @@ func (m *vMonitor) detach(info *vVMInfo, gen int, inner test.SSHExecFunc, env ma
 
 	// --- at most one live process per container
 	for _, ref := range res.overlap {
-		if m.inherited[uuid][ref] {
+		if m.inherited[uuid][ref] || inhAtArrival[ref] {
 			// Process left over from before the restart on a VM that has
 			// not answered a --list of this generation yet: the
 			// dispatcher cannot know about it. By design it gives up
